@@ -8,8 +8,16 @@ Two layers of generators:
   code with integral n_k_d";
 * qv/families/<family>.py — per-size structural cases (stabilizers, logicals, n_k_d, plaquette list, flatten map over a
   margin, single site / plaquette writes) compared with the Lean model, plus C07 evaluated on the real matrices.
-Any exception the real code raises where the property promises an answer is a monitor failure (concrete call in the
-replay), not a harness crash.
+Every access to what a constructible code PUBLISHES (constructor, n_k_d, stabilizers, logical_xs, logical_zs, logicals,
+validate(), new_pauli(), label, repr, ==, hash) goes through families/common.published: each access on its own, an
+exception becomes the monitor failure 'constructible code <family> <size> raises <Exception> from <call>' with
+{family, size, call} and the run continues (next access, next size); the per-size structural cases run under
+common.per_size, which turns any exception raised inside qecsim into the same kind of failure.  IndexError is accepted
+as an answer only from the writes that take an index (site / plaquette / path).
+Size grids (both layers): the square grid [min..bound]^2 — which already holds rows >= 2 cols and cols >= 2 rows — plus
+STRIPS beyond it in both orientations (narrow side the one or two smallest legal values, long side up to 12-14 in the
+quick and 16-30 in the thorough tier; aspect ratios up to 6-7 / 8-15); the coverage is recorded in the evidence
+(c07_size_grids) and a grid without a tall-narrow or a short-wide size is an infrastructure error.
 """
 import importlib
 import os
@@ -26,7 +34,10 @@ RULE = ('for every accepted size up to the bound: stabilizers, logical_xs, logic
         'numpy floats, Fraction, Decimal, complex, every numpy integer width, numpy bool, 0-d arrays, str, bytes, None, '
         'containers) in each argument position with the monitor "rejected with ValueError/TypeError, or a usable code '
         'with integral n_k_d"; and C07 itself (commutation, pairing, GF(2) rank n-k by elimination, logical '
-        'independence, shapes) evaluated directly on the real matrices. non-trivial = every case except index-kind '
+        'independence, shapes) evaluated directly on the real matrices; every access to the published data of a '
+        'constructible code (n_k_d, stabilizers, logical_xs, logical_zs, logicals, validate(), new_pauli(), label, repr, '
+        '==, hash) guarded one by one (an exception is a failure naming family, size and call), on the square grid plus '
+        'tall-narrow / short-wide strips in both orientations. non-trivial = every case except index-kind '
         'predicates and reads that yield I / IndexError')
 
 FAMILIES = ['planar', 'rotatedplanar', 'toric', 'rotatedtoric', 'color666', 'basic']
